@@ -66,7 +66,10 @@ def shard(idx, n, tier):
     from hypothesis import given, settings, HealthCheck, Phase
     res = core.Result()
     nex = (48000 if tier == "thorough" else 4000) // n
-    variants = [gen.Opts(history=True, max_modules=3, max_insts=4), gen.Opts(history=True, max_modules=2, max_insts=4, arrays=False, pairs=False, prims=False)]
+    variants = [gen.Opts(history=True, max_modules=3, max_insts=4), gen.Opts(history=True, max_modules=2, max_insts=4, arrays=False, pairs=False, prims=False),
+                # reference-heavy: many ports without a connection of their own, kept alive from inside anonymous bundles
+                gen.Opts(history=True, min_modules=2, max_modules=2, max_insts=4, arrays=False, pairs=False, prims=False, open_pct=25, anon_pref_pct=60,
+                         bundle_port_pct=90)]
     for vi, opts in enumerate(variants):
         @hypothesis.seed(env.subseed(PID, idx, vi))
         @settings(max_examples=max(1, nex // len(variants)), database=None, deadline=None, derandomize=False,
